@@ -17,6 +17,11 @@ offline stub, clock frozen):
     splicing between two sessions, cross-key replay), the frozen clock is moved by a delta around the 600 s
     limit, and the callback is called with a state variant.  The callback may *complete* (token exchange
     performed / 302 issued) only if the cookie is unmutated, its age is ≤ 600 s and the state is equal.
+
+Family ``layout``: multi-byte characters in the request path (k extra UTF-8 bytes, k at / one off the length of a
+URL-shaped tail at the very end of the query) with a valid loopback return_to of 25-625 chars — byte/character
+confusion in how the session cookie is packed.  return_to values also come padded (one component up to 4000 chars,
+dense around 1400 and 2048).  A Location with C0 controls other than CR/LF/NUL is resolved as the URL Standard says.
 """
 
 from __future__ import annotations
